@@ -13,6 +13,7 @@ func (rt *runtime) cmplEvaluateNodeExpression(node nodeExpression) Value {
 	// If the Interrupt channel is nil, then
 	// we avoid runtime.Gosched() overhead (if any)
 	// FIXME: Test this
+	rt.verifStep()
 	if rt.otto.Interrupt != nil {
 		goruntime.Gosched()
 		select {
